@@ -493,8 +493,8 @@ func Check(r *ev.Run, replay string) {
 							// a thousand instructions per execution: the instants are swept, the schedule around each is the default
 							// one (thorough: one deviation)
 							b = 0
-							if r.Thorough() {
-								b = 1
+							if r.Thorough() && k < 2000 {
+								b = 1 // (not for the deep-frame shapes: fourteen thousand instructions per execution)
 							}
 						}
 						st := dsched.Explore(sc, b, limit)
